@@ -462,7 +462,7 @@ def contains(it, container, item, node):
             e = compare(it, ast.Eq, item, x, node) if i is False else sym.Or(i, _as_cond(it, compare(it, ast.Eq, item, x, node), node))
             conds.append(_as_cond(it, e, node))
         return sym.Or(*conds)
-    if isinstance(container, (set, frozenset, dict, str, range)) and not contains_symbolic(item):
+    if isinstance(container, (set, frozenset, dict, str, range, types.MappingProxyType)) and not contains_symbolic(item):
         try:
             return item in container
         except TypeError:
